@@ -691,6 +691,11 @@ class Evaluator:
         _, ck, ty, inner = e
         v = self.ev(inner, eff)
         self.syn["casts"].append(squash(ty))
+        if ck == "const_cast":
+            # casting constness away does not change which parameter a pointer walks over: the value is kept, so a
+            # `double*` made from the `const double*` parameter shows up in the table under the parameter it came from
+            if v[0] == "iter" or (v[0] == "param" and self.ptypes[v[1]] in ("cintp", "cdoublep", "doublep")): return v
+            self.err("`const_cast` of something that is not a pointer parameter")
         if ck != "static_cast": self.err("`%s` is not supported" % ck)
         rty = squash(resolve_type(self.S, ty))
         if rty == "void*":
@@ -928,7 +933,7 @@ def clang_summaries():
         k = n.get("kind")
         ty = n.get("type", {})
         if "desugaredQualType" in ty: desugar[squash(ty["qualType"])] = squash(ty["desugaredQualType"])
-        if k == "CXXStaticCastExpr": acc["casts"].append(squash(ty.get("qualType", "")))
+        if k in ("CXXStaticCastExpr", "CXXConstCastExpr"): acc["casts"].append(squash(ty.get("qualType", "")))
         elif k == "CXXNewExpr": acc["news"].append(squash(ty.get("qualType", "")))
         elif k == "CXXDeleteExpr": acc["deletes"] += 1
         elif k == "CXXMemberCallExpr":
@@ -1001,10 +1006,9 @@ def cross_check(S, evs, clang):
         if name not in summ:
             problems.append("%s: no definition in the clang AST" % name); continue
         c = summ[name]; t = ev.syn
-        mine = [(pn, squash(resolve_type(S, ty))) for pn, ty in ev.params]
-        def norm(ty): return re.sub(r"^(.*?)\bconst\b(.*)$", lambda m: "const " + (m.group(1) + m.group(2)).strip(), ty) if "const" in ty else ty
-        theirs = [(pn, squash(norm(ty))) for pn, ty in c["params"]]
-        if [(a, squash(b.replace("const ", "const@")).replace("const@", "const ")) for a, b in mine] != theirs:
+        mine = [(pn, squash(resolve_type(S, ty))) for pn, ty in ev.params]      # `T const*` was normalised to `const T*` by the parser
+        theirs = [(pn, squash(ty)) for pn, ty in c["params"]]                     # clang prints `const T *`
+        if mine != theirs:
             problems.append("%s: parameters %r (text) vs %r (clang)" % (name, mine, theirs))
         for key in ("casts", "news", "members", "callops", "lambdas"):
             a, b = sorted(map(repr, t[key])), sorted(map(repr, c[key]))
